@@ -787,7 +787,7 @@ def _run_legs(ctx, pool, mcpool, want, state):
         mcs.append((mcpool.submit('MC_Calendar', ctx.pick('MC_Calendar_quick.cfg', 'MC_Calendar.cfg'), 'MC',
                                 workers=ctx.pick(6, 12)), None))
         mcs.append((mcpool.submit('MC_Calendar', 'MC_Calendar_shipped.cfg', 'MC-nonvacuity', workers=1), 'BinInv'))
-        mcs.append((mcpool.submit('MC_Calendar', 'MC_Calendar_walk.cfg', 'MC', workers=3), None))
+        mcs.append((mcpool.submit('MC_Calendar', ctx.pick('MC_Calendar_walkq.cfg', 'MC_Calendar_walk.cfg'), 'MC', workers=3), None))
         mcs.append((mcpool.submit('MC_Calendar', ctx.pick('MC_Calendar_binq.cfg', 'MC_Calendar_bin.cfg'), 'MC', workers=ctx.pick(3, 6)), None))
         mcs.append((mcpool.submit('MC_Strings', ctx.pick('MC_Strings_quick.cfg', 'MC_Strings.cfg'), 'MC', workers=3), None))
         mcs.append((mcpool.submit('MC_Accounts', 'MC_Accounts.cfg', 'MC', workers=3), None))
